@@ -2,23 +2,24 @@
    Only statements; every proof is `exact <lemma>`.  Each theorem holds for every argument type A,
    raise predicate, defaults, positional list and keyword map (any length), every body kind (shape x
    return style: return v / result(v); return), every calling context cx (top level, generator task,
-   plain-bodied task, nested synchronously called task) and every decorator x binding cell the
-   decorators are written for (valid d b = true; 74 cells). *)
+   plain-bodied task, nested synchronously called task), every history hs of earlier lookups of the same
+   decorated attribute through other classes / instances of the hierarchy C, Sub(C), Sub2(C), and every
+   decorator x binding cell the decorators are written for (valid d b = true; 98 cells). *)
 From Asynq Require Import Base Dispatch proofs.DispatchProofs.
 
 (* T1: .asynq().value(), yield .asynq(), async_call (and, for callables without .asynq, the direct
    call, yielding it and async_call) are the same invocation: same body, receiver, arguments, outcome;
    the synchronous call has the same effect (sync_fn's body with the same receiver/arguments for a pair);
    the body is reached with [bound receiver] ++ the user's positionals *)
-Theorem C09_conventions_agree : forall A raises dflt_b dflt_k cx d b bk pos kw,
+Theorem C09_conventions_agree : forall A raises dflt_b dflt_k cx hs d b bk pos kw,
   valid d b = true ->
-  let inv f := invoke A raises dflt_b dflt_k cx d b f pos kw bk in
-  (has_async d b = true ->
+  let inv f := invoke A raises dflt_b dflt_k cx hs d b f pos kw bk in
+  (has_async hs d b = true ->
      inv YieldAsynq = inv AsynqValue /\ inv AsyncCall = inv AsynqValue /\
      (d <> DPair -> eff A (inv Sync) = eff A (inv AsynqValue)) /\
      (d = DPair -> eff A (inv Sync) = as_sync A (eff A (inv AsynqValue))) /\
      eff A (inv AsynqValue) = async_effect A raises dflt_b dflt_k d (style_of b) bk (prepend A (expected_recv b) pos) kw) /\
-  (has_async d b = false ->
+  (has_async hs d b = false ->
      inv AsynqValue = (SNoAsynqAttr, [], RErr E_ATTR) /\ inv YieldAsynq = (SNoAsynqAttr, [], RErr E_ATTR) /\
      inv YieldDirect = inv Sync /\ inv AsyncCall = inv Sync /\
      eff A (inv Sync) = async_effect A raises dflt_b dflt_k d (style_of b) bk (prepend A (expected_recv b) pos) kw).
@@ -26,14 +27,14 @@ Proof. exact conventions_agree. Qed.
 Print Assumptions C09_conventions_agree.
 
 (* T1b: both call paths prepend the bound instance/class exactly once *)
-Theorem C09_receiver_once : forall A raises dflt_b dflt_k cx d b bk pos kw,
+Theorem C09_receiver_once : forall A raises dflt_b dflt_k cx hs d b bk pos kw,
   valid d b = true ->
-  target_call A raises dflt_b dflt_k cx d b bk pos kw =
+  target_call A raises dflt_b dflt_k cx hs d b bk pos kw =
     (ret_kind d, direct_effect A raises dflt_b dflt_k cx d (style_of b) bk (prepend A (expected_recv b) pos) kw) /\
-  (has_async d b = true ->
-   target_asynq A raises dflt_b dflt_k d b bk pos kw =
+  (has_async hs d b = true ->
+   target_asynq A raises dflt_b dflt_k hs d b bk pos kw =
      Some (async_effect A raises dflt_b dflt_k d (style_of b) bk (prepend A (expected_recv b) pos) kw)) /\
-  (has_async d b = false -> target_asynq A raises dflt_b dflt_k d b bk pos kw = None).
+  (has_async hs d b = false -> target_asynq A raises dflt_b dflt_k hs d b bk pos kw = None).
 Proof. exact receiver_once. Qed.
 Print Assumptions C09_receiver_once.
 
@@ -46,28 +47,28 @@ Print Assumptions C09_bound_body.
 
 (* T3: with sync_fn the synchronous call runs sync_fn's body only, the asynchronous forms fn's body
    only, both with the same receiver and arguments *)
-Theorem C09_sync_fn_runs_sync : forall A raises dflt_b dflt_k cx b bk pos kw,
-  let s := invoke A raises dflt_b dflt_k cx DPair b Sync pos kw bk in
-  let a := invoke A raises dflt_b dflt_k cx DPair b AsynqValue pos kw bk in
+Theorem C09_sync_fn_runs_sync : forall A raises dflt_b dflt_k cx hs b bk pos kw,
+  let s := invoke A raises dflt_b dflt_k cx hs DPair b Sync pos kw bk in
+  let a := invoke A raises dflt_b dflt_k cx hs DPair b AsynqValue pos kw bk in
   eff A s = as_sync A (eff A a) /\
   stat A a = match snd (eff A a) with RErr _ => SRaised | _ => SRetFuture end /\
   stat A s = match snd (eff A s) with RErr _ => SRaised | _ => SRetValue end /\
   Forall (fun c => call_tag A c = Some SyncBody) (fst (eff A s)) /\
   Forall (fun c => call_tag A c = Some FnBody) (fst (eff A a)) /\
-  invoke A raises dflt_b dflt_k cx DPair b YieldAsynq pos kw bk = a /\
-  invoke A raises dflt_b dflt_k cx DPair b AsyncCall pos kw bk = a.
+  invoke A raises dflt_b dflt_k cx hs DPair b YieldAsynq pos kw bk = a /\
+  invoke A raises dflt_b dflt_k cx hs DPair b AsyncCall pos kw bk = a.
 Proof. exact sync_fn_runs_sync. Qed.
 Print Assumptions C09_sync_fn_runs_sync.
 
 (* T2: the five classification helpers agree with how the callable can actually be called *)
-Theorem C09_classify_consistent : forall A raises dflt_b dflt_k cx d b bk pos kw,
+Theorem C09_classify_consistent : forall A raises dflt_b dflt_k cx hs d b bk pos kw,
   valid d b = true ->
-  let inv f := invoke A raises dflt_b dflt_k cx d b f pos kw bk in
-  (has_async d b = true <-> exists e, target_asynq A raises dflt_b dflt_k d b bk pos kw = Some e) /\
-  (is_pure d b = true <-> fst (target_call A raises dflt_b dflt_k cx d b bk pos kw) = KFuture) /\
-  has_async d b = negb (is_pure d b) /\ is_async d b = true /\
-  get_async_kind d b = (if has_async d b then GAsynqAttr else GSelf) /\
-  get_async_or_sync_kind d b = get_async_kind d b /\
+  let inv f := invoke A raises dflt_b dflt_k cx hs d b f pos kw bk in
+  (has_async hs d b = true <-> exists e, target_asynq A raises dflt_b dflt_k hs d b bk pos kw = Some e) /\
+  (is_pure hs d b = true <-> fst (target_call A raises dflt_b dflt_k cx hs d b bk pos kw) = KFuture) /\
+  has_async hs d b = negb (is_pure hs d b) /\ is_async hs d b = true /\
+  get_async_kind hs d b = (if has_async hs d b then GAsynqAttr else GSelf) /\
+  get_async_or_sync_kind hs d b = get_async_kind hs d b /\
   inv ViaGetAsync = inv AsyncCall /\ inv ViaGetAsyncOrSync = inv AsyncCall /\
   eff A (inv AsyncCall) = async_effect A raises dflt_b dflt_k d (style_of b) bk (prepend A (expected_recv b) pos) kw /\
   stat A (inv AsyncCall) = match snd (eff A (inv AsyncCall)) with RErr _ => SRaised | _ => SRetFuture end.
@@ -75,46 +76,46 @@ Proof. exact classify_consistent. Qed.
 Print Assumptions C09_classify_consistent.
 
 (* no calling form ever hands an unresolved future back as the value *)
-Theorem C09_no_unresolved_future : forall A raises dflt_b dflt_k cx d b f bk pos kw,
-  valid d b = true -> res_no_future A (snd (invoke A raises dflt_b dflt_k cx d b f pos kw bk)).
+Theorem C09_no_unresolved_future : forall A raises dflt_b dflt_k cx hs d b f bk pos kw,
+  valid d b = true -> res_no_future A (snd (invoke A raises dflt_b dflt_k cx hs d b f pos kw bk)).
 Proof. exact no_unresolved_future. Qed.
 Print Assumptions C09_no_unresolved_future.
 
 (* T4: a calling form executed inside a running task never finishes THAT task with the callee's value
    (no AsyncTaskResult leaves a form; at top level none comes out as an exception), and it gives the
    same status, body runs and outcome as at top level *)
-Theorem C09_context_independent : forall A raises dflt_b dflt_k cx d b f bk pos kw,
+Theorem C09_context_independent : forall A raises dflt_b dflt_k cx hs d b f bk pos kw,
   valid d b = true ->
-  invoke A raises dflt_b dflt_k cx d b f pos kw bk = invoke A raises dflt_b dflt_k CTop d b f pos kw bk /\
-  invoke_ctx A raises dflt_b dflt_k cx d b f pos kw bk = (caller_of cx, invoke A raises dflt_b dflt_k CTop d b f pos kw bk).
+  invoke A raises dflt_b dflt_k cx hs d b f pos kw bk = invoke A raises dflt_b dflt_k CTop hs d b f pos kw bk /\
+  invoke_ctx A raises dflt_b dflt_k cx hs d b f pos kw bk = (caller_of cx, invoke A raises dflt_b dflt_k CTop hs d b f pos kw bk).
 Proof. exact context_independent. Qed.
 Print Assumptions C09_context_independent.
 
-Theorem C09_caller_intact : forall A raises dflt_b dflt_k cx d b f bk pos kw,
+Theorem C09_caller_intact : forall A raises dflt_b dflt_k cx hs d b f bk pos kw,
   valid d b = true ->
-  invoke_ctx A raises dflt_b dflt_k cx d b f pos kw bk = (caller_of cx, invoke A raises dflt_b dflt_k cx d b f pos kw bk) /\
-  res_no_escape A (snd (invoke A raises dflt_b dflt_k cx d b f pos kw bk)).
+  invoke_ctx A raises dflt_b dflt_k cx hs d b f pos kw bk = (caller_of cx, invoke A raises dflt_b dflt_k cx hs d b f pos kw bk) /\
+  res_no_escape A (snd (invoke A raises dflt_b dflt_k cx hs d b f pos kw bk)).
 Proof. exact caller_intact. Qed.
 Print Assumptions C09_caller_intact.
 
 (* T5: whatever value a form hands back was computed by fn's body inside a task made for fn (the body
    sees its own task as get_active_task(), in every form and context), or by sync_fn's plain body *)
-Theorem C09_body_in_own_task : forall A raises dflt_b dflt_k cx d b f bk pos kw,
-  valid d b = true -> res_own A bk (snd (invoke A raises dflt_b dflt_k cx d b f pos kw bk)).
+Theorem C09_body_in_own_task : forall A raises dflt_b dflt_k cx hs d b f bk pos kw,
+  valid d b = true -> res_own A bk (snd (invoke A raises dflt_b dflt_k cx hs d b f pos kw bk)).
 Proof. exact body_in_own_task. Qed.
 Print Assumptions C09_body_in_own_task.
 
 (* T6: a body ending in  result(v); return  behaves, under every form, exactly as one ending in  return v *)
-Theorem C09_result_is_return : forall A raises dflt_b dflt_k cx d b f s pos kw,
+Theorem C09_result_is_return : forall A raises dflt_b dflt_k cx hs d b f s pos kw,
   valid d b = true ->
-  invoke A raises dflt_b dflt_k cx d b f pos kw (BK s RetResult) = invoke A raises dflt_b dflt_k cx d b f pos kw (BK s RetReturn).
+  invoke A raises dflt_b dflt_k cx hs d b f pos kw (BK s RetResult) = invoke A raises dflt_b dflt_k cx hs d b f pos kw (BK s RetReturn).
 Proof. exact result_is_return. Qed.
 Print Assumptions C09_result_is_return.
 
-(* the finite part, swept: all 74 valid cells classify consistently; the enumerations are complete *)
+(* the finite part, swept: all 98 valid cells classify consistently; the enumerations are complete *)
 Theorem C09_classification_sweep :
   forallb (fun d => forallb (cell_ok d) all_bindings) all_decos = true /\
-  length (filter (fun p => valid (fst p) (snd p)) (list_prod all_decos all_bindings)) = 74%nat.
+  length (filter (fun p => valid (fst p) (snd p)) (list_prod all_decos all_bindings)) = 98%nat.
 Proof. exact classification_sweep. Qed.
 Print Assumptions C09_classification_sweep.
 
@@ -124,3 +125,41 @@ Theorem C09_enumerations_complete :
 Proof. exact (conj all_decos_complete (conj all_bindings_complete (conj all_forms_complete
               (conj all_bodykinds_complete all_ctxs_complete)))). Qed.
 Print Assumptions C09_enumerations_complete.
+
+(* T7: the outcome of a call is independent of the lookup history: whatever paths hs (base class, subclass,
+   sibling subclass, instances of them) the same decorated attribute was looked up / called through before,
+   a call through path b gives the same status, body runs (receiver!), outcome, caller state and classification
+   as the first-ever use *)
+Theorem C09_history_independent : forall A raises dflt_b dflt_k cx hs d b f bk pos kw,
+  invoke A raises dflt_b dflt_k cx hs d b f pos kw bk = invoke A raises dflt_b dflt_k cx [] d b f pos kw bk /\
+  invoke_ctx A raises dflt_b dflt_k cx hs d b f pos kw bk = invoke_ctx A raises dflt_b dflt_k cx [] d b f pos kw bk /\
+  (is_async hs d b, is_pure hs d b, has_async hs d b, get_async_kind hs d b, get_async_or_sync_kind hs d b) =
+  (is_async [] d b, is_pure [] d b, has_async [] d b, get_async_kind [] d b, get_async_or_sync_kind [] d b).
+Proof. exact history_independent. Qed.
+Print Assumptions C09_history_independent.
+
+(* ... because no lookup writes to the decorator object stored in the class (its sync_fn stays unbound; the
+   bound copy is handed out, never kept) *)
+Theorem C09_stored_decorator_unchanged : forall d s hs, after_hist d s hs = s.
+Proof. exact after_hist_id. Qed.
+Print Assumptions C09_stored_decorator_unchanged.
+
+(* a whole trace of uses of one attribute: each one's outcome is its outcome in isolation *)
+Theorem C09_trace_independent : forall A raises dflt_b dflt_k hs d bk ws,
+  run_warm A raises dflt_b dflt_k hs d bk ws = map (warm_out A raises dflt_b dflt_k [] d bk) ws.
+Proof. exact trace_independent. Qed.
+Print Assumptions C09_trace_independent.
+
+(* T8: bound to the class it was called through: after any history, both call paths reach the body with the
+   receiver Python binds for THIS lookup's (owner, cls) - cls for a classmethod, the instance for a method,
+   nothing for a staticmethod - prepended exactly once *)
+Theorem C09_bound_to_own_lookup : forall A raises dflt_b dflt_k cx hs d b bk pos kw,
+  valid d b = true ->
+  let r := match access b with None => None | Some (owner, cls) => py_get (mtype_of b) owner cls end in
+  target_call A raises dflt_b dflt_k cx hs d b bk pos kw =
+    (ret_kind d, direct_effect A raises dflt_b dflt_k cx d (style_of b) bk (prepend A r pos) kw) /\
+  (has_async hs d b = true ->
+   target_asynq A raises dflt_b dflt_k hs d b bk pos kw =
+     Some (async_effect A raises dflt_b dflt_k d (style_of b) bk (prepend A r pos) kw)).
+Proof. exact bound_to_own_lookup. Qed.
+Print Assumptions C09_bound_to_own_lookup.
